@@ -124,9 +124,12 @@ func gobEncodeItem(it Item) ([]byte, error) {
 	if IsObject(it) {
 		switch it.GetType() {
 		case IRIType:
-			var bytes []byte
-			bytes, err = it.(IRI).GobEncode()
-			b.Write(bytes)
+			// only an IRI can be encoded as one; a struct that merely carries this type name has no data of that kind
+			if iri, ok := it.(IRI); ok {
+				var bytes []byte
+				bytes, err = iri.GobEncode()
+				b.Write(bytes)
+			}
 		case "", ObjectType, ArticleType, AudioType, DocumentType, EventType, ImageType, NoteType, PageType, VideoType:
 			err = OnObject(it, func(ob *Object) error {
 				bytes, err := ob.GobEncode()
